@@ -417,6 +417,13 @@ class DagGen:
             return self.term(T, depth, ctx)
         S = ctx[0]
         U = self.ty(0)
+        if rng.random() < 0.5:
+            # the SAME object `s = f (Bound 0)` at depth 0, where Bound 0 is the variable of the
+            # binder being eliminated, and under `%y::S`, where Bound 0 is y:
+            #   h s (%y::S. k s (Bound 1))
+            s = Comb(self.atom(TFun(S, U)), Bound(0))
+            inner = Abs(rng.choice(self.names), S, Comb(Comb(self.atom(TFun(U, S, T)), s), Bound(1)))
+            return Comb(Comb(self.atom(TFun(U, TFun(S, T), T)), s), inner)
         # f (Bound 0) (%y::U. g (Bound 1) y)  : the bound variable at depth 0 and at depth 1
         inner = Abs(rng.choice(self.names), U, Comb(Comb(self.term(TFun(S, U, T), 1, (U,) + ctx), Bound(1)), Bound(0)))
         return Comb(Comb(self.term(TFun(S, TFun(U, T), T), 1, ctx), Bound(0)), inner)
